@@ -8,6 +8,7 @@ import (
 	"errors"
 	"fmt"
 	"math"
+	"reflect"
 	"sort"
 	"strconv"
 	"strings"
@@ -77,5 +78,36 @@ func H_SELF_fmt_symbolic_format() {
 	}
 	v := hAscii(1)
 	verifObserve("f", fmt.Sprintf("\""+k+"\":%s", v))
+	verifReach("end")
+}
+
+type hSelfNamed uint16
+
+func H_SELF_reflect() {
+	var vals []any
+	a, b, c := nondetInt8(), nondetUint32(), nondetFloat32()
+	verifAssume(c == c)
+	vals = append(vals, a, b, c, nondetBool(), hAscii(1), nil, []int(nil), []any{a}, map[string]any(nil), (*int)(nil), hSelfNamed(7), [2]int{1, 2}, struct{}{})
+	for i, v := range vals {
+		rv := reflect.ValueOf(v)
+		verifObserve("kind", i, int(rv.Kind()), rv.IsValid())
+		switch rv.Kind() {
+		case reflect.Int8, reflect.Int, reflect.Int64:
+			verifObserve("int", rv.Int())
+		case reflect.Uint32, reflect.Uint16:
+			verifObserve("uint", rv.Uint(), reflect.TypeOf(v).Name(), reflect.TypeOf(v).String())
+		case reflect.Float32:
+			verifObserve("float", rv.Float())
+		case reflect.Bool:
+			verifObserve("bool", rv.Bool())
+		case reflect.String:
+			verifObserve("string", rv.String(), rv.Len())
+		case reflect.Slice, reflect.Map, reflect.Ptr:
+			verifObserve("nil", rv.IsNil(), rv.Type().String())
+			if rv.Kind() == reflect.Slice && rv.Len() > 0 {
+				verifObserve("elem", rv.Index(0).Interface(), int(rv.Index(0).Kind()), int(rv.Index(0).Elem().Kind()))
+			}
+		}
+	}
 	verifReach("end")
 }
